@@ -260,11 +260,25 @@ func runC07(r *core.Run) {
 	if capped {
 		r.Capped.Store(true)
 	}
+	c07Constructed(r)
+	hd := 3
+	if !r.Quick() {
+		hd = 5
+	}
+	c07History(r, hd)
 	r.Sample(map[string]any{"identity": "P-256 / ElGamal, KEY certificate + 5 extra payload bytes", "variants": "every byte ^01 and ^ff"})
 	r.Sample(map[string]any{"paths": []string{"ReadDestination", "NewDestinationFromBytes", "ReadRouterIdentity", "AsDestination", "NewDestination", "NewRouterIdentity", "RouterInfo.IdentHash"}})
 }
 
 func replayC07(r *core.Run, c core.Case) {
+	if c.Kind == "hash-history" {
+		c07History(r, 3)
+		return
+	}
+	if c.Kind == "constructed" {
+		c07Constructed(r)
+		return
+	}
 	w := core.UnHex(c.Args["bytes"])
 	k, _, err := refmodel.DecodeKeysAndCert(w)
 	if err != nil {
